@@ -117,7 +117,7 @@ PROPS = {
     "C12": {
         "slices": ["C12"],
         "relevant_diff": lambda part, op: part.startswith("DIFF cs-") or part.startswith("DIFF meta") or part.startswith("DIFF xmlenc") or part.startswith("DIFF xmlinst") or part.startswith("DIFF htmltok"),
-        "assumptions": COMMON_ASSUME + ["x/net/html tokenizer is hand-modelled (Model/HtmlTok.lean, v0.39.0; character references in attribute values: Model/HtmlUnescape.lean over the regenerated entity tables) and compared with the library on every walk / cs html op; encoding/xml's first raw token is hand-modelled (Model/XmlTok.lean, name tables of go1.23.5) and compared with the library on every walk / cs xml op",
+        "assumptions": COMMON_ASSUME + ["x/net/html tokenizer is hand-modelled (Model/HtmlTok.lean, v0.39.0; character references in attribute values: Model/HtmlUnescape.lean over the regenerated entity tables) and compared with the library on every walk / cs html op; encoding/xml's first raw token is hand-modelled (Model/XmlTok.lean, name tables of go1.23.5) and compared with the library on every walk / cs xml op; strings.ToLower on the XML label is hand-modelled for every byte string (Model/ToLower.lean over the regenerated simple case mapping of the installed toolchain)",
                                         "in the theorems labels are token characters other than '&' (a label written with references declares the decoded label: exercised by the decl ops, not a theorem)"],
         "trusted_base": ["fromHTML prescan, fromMetaElement, xmlEncoding, FromBOM hand-modelled; tie: cs html/xml ops fed with the real token stream, meta/xmlenc ops on raw strings, decl ops through Detect"],
     },
